@@ -37,6 +37,10 @@ func (k Keeper) GetLatestPriceFromAssetAndSource(ctx sdk.Context, asset, source 
 	for ; iterator.Valid(); iterator.Next() {
 		var val types.Price
 		k.cdc.MustUnmarshal(iterator.Value(), &val)
+		// keys are plain concatenations, so the prefix also matches other assets / sources whose names start alike
+		if val.Asset != asset || val.Source != source {
+			continue
+		}
 		return val, true
 	}
 
@@ -51,6 +55,10 @@ func (k Keeper) GetLatestPriceFromAnySource(ctx sdk.Context, asset string) (val 
 	for ; iterator.Valid(); iterator.Next() {
 		var val types.Price
 		k.cdc.MustUnmarshal(iterator.Value(), &val)
+		// keys are plain concatenations, so the prefix also matches every asset whose name starts with this one
+		if val.Asset != asset {
+			continue
+		}
 		return val, true
 	}
 
